@@ -121,3 +121,11 @@ def cfg_env(cfg):
 
 
 SIZES = [17 + 8 * (k % 8) for k in range(32)]     # symbol sizes of f0..f31 in mc_harness.c
+
+
+def addr_canon(addr):
+    """harness address tuple -> the model's address space: function k lives at 256*k (the harness passes
+    f_k + 4 as child ip, so an untouched address is exactly 256*k; a corrupted one keeps its offset)"""
+    if addr[0] == "f":
+        return 256 * addr[1] + addr[2] - 4
+    return (1 << 50) + addr[1]
